@@ -127,17 +127,17 @@ def admissible(q, msgs):
     return True
 
 
-def via_history(cfg, rng):
+def via_history(cfg, rng, variant=None, which=None):
     """the object for `cfg` reached through a call HISTORY instead of a fresh construction: built for a different axis (possibly with one more
     harmonic) and other scalar inputs, then resized with change_nfourier and moved to cfg with set_dofs (order r3: calculate_shear() afterwards,
     half of the time).  On a correct implementation the result is indistinguishable from Qsc(**cfg) (property C16); using such objects in the
     other oracles exposes stale caches and in-place writes that no freshly constructed object shows."""
     qsc = import_qsc()
     nh = len(cfg['rc'])
-    if rng.random() < 0.3:
+    if variant == 'B' or (variant is None and rng.random() < 0.3):
         # variant B: the same input with ONE more harmonic that only carries rs / zc (or only rc / zs), discarded again by change_nfourier
         c0 = dict(cfg)
-        which = ('rs', 'zc') if rng.random() < 0.6 else ('rc', 'zs')
+        which = which or (('rs', 'zc') if rng.random() < 0.6 else ('rc', 'zs'))
         for k in ('rc', 'zs', 'rs', 'zc'):
             base = list(cfg.get(k, [0.0] * nh))
             c0[k] = base + [abs(cfg['rc'][-1]) * 0.05 if k in which else 0.0]
@@ -176,7 +176,7 @@ def via_history(cfg, rng):
         c0['sigma0'] = 0.0
         if 'B2s' in c0:
             c0['B2s'] = 0.0
-    shear_first = cfg.get('order') == 'r3' and rng.random() < 0.5
+    shear_first = cfg.get('order') == 'r3' and (variant == 'A' or rng.random() < 0.5)
     h = WarnCatcher(); lg = logging.getLogger('qsc'); lg.addHandler(h); old = lg.level; lg.setLevel(logging.WARNING)
     try:
         with warnings.catch_warnings(record=True) as w:
@@ -322,7 +322,9 @@ CORPUS = [
 ]
 
 
-def corpus_objects(orders=None):
+def corpus_objects(orders=None, histories=True):
+    """fresh objects for the corpus inputs, followed (histories=True) by two history-built objects: one that discards an rs/zc-only harmonic with
+    change_nfourier and nothing else, one that is moved from another axis with set_dofs after a calculate_shear() call"""
     out = []
     for cfg in CORPUS:
         if orders and cfg.get('order', 'r1') not in orders:
@@ -333,4 +335,15 @@ def corpus_objects(orders=None):
             continue
         if admissible(q, msgs):
             out.append((dict(cfg), q))
+    if histories:
+        hr = np.random.default_rng(12345)
+        for cfg, variant in ((CORPUS[3], 'B'), (CORPUS[0], 'A')):
+            if orders and cfg.get('order', 'r1') not in orders:
+                continue
+            try:
+                q, msgs = via_history(dict(cfg), hr, variant=variant, which=('rs', 'zc'))
+            except Exception:
+                continue
+            if admissible(q, msgs):
+                out.append((dict(cfg), q))
     return out
